@@ -92,7 +92,7 @@ def run_group(mdir, g, tier_cfgs=()):
         res["infra_error"] = f"unreadable result file: {ex}"
         res["tail"] = strip_warnings(out)[-6000:]
         return res
-    stats = {c["harness_id"]: c.get("cbmc_stats", {}) for c in d.get("cbmc", [])}
+    stats = {c["harness_id"]: (c.get("cbmc_stats") or {}) for c in d.get("cbmc", [])}
     errs = {c["harness_id"]: c for c in d.get("error_details", [])}
     listed = {h["pretty_name"] for h in d.get("harness_metadata", [])}
     for r in d["verification_results"]["results"]:
